@@ -334,8 +334,8 @@ def tree_variant(xml, rng):
     txt = xml.decode()
     tags = []
     if rng.chance(1, 3):
-        tags.append("prefix")
         pre = rng.choice(["e57", "e", "E57_ns", "a.b-c"])
+        tags.append("prefix=" + pre)
         txt = re.sub(r"<(/?)([A-Za-z_][\w.-]*)(?=[\s>/])", lambda m: "<%s%s:%s" % (m.group(1), pre, m.group(2)), txt)
         txt = txt.replace(' xmlns="%s"' % E57_NS, ' xmlns:%s="%s"' % (pre, E57_NS))
     if rng.chance(1, 2):
@@ -355,3 +355,61 @@ def tree_variant(xml, rng):
             out.append(part)
         txt = "".join(out)
     return txt.encode(), tags
+
+
+# ---------------------------------------------------------------- what the reader must expose (dump of harness kind RNEW)
+
+EXT_URL = "http://www.example.com/e57/ext"
+
+
+def _hs(t):
+    return "=" + t.encode().hex()
+
+
+def dump_name(nm):
+    if ":" in nm:
+        p, l = nm.split(":", 1)
+        return "U:%s:%s" % (_hs(p), _hs(l))
+    return nm[0].upper() + nm[1:]
+
+
+def dump_type(t):
+    if t == "F":
+        return "S:-:-"
+    if t == "D":
+        return "D:-:-"
+    p = t.split("/")
+    if p[0] == "I":
+        return "I:%s:%s" % (p[1], p[2])
+    return "SI:%s:%s:%s:%s" % (p[1], p[2], p[3], p[4])
+
+
+def expected_dump(entries, offs, names, prefix=None):
+    """the canonical metadata dump (harness/src/ext_xe.rs) of a file made by make_xml: names, types with the
+    defaults made explicit, counts, offsets, guids; `prefix` = the prefix the E57 namespace is bound to, if any
+    (the reader lists every prefixed namespace of the root element as an extension)"""
+    exts = [("ext", EXT_URL)] + ([(prefix, E57_NS)] if prefix else [])
+    out = ["OK", "fmt=" + _hs("ASTM E57 3D Imaging Data File"), "guid=" + _hs("spec-file"), "lib=-", "cre=-", "crd=-",
+           "ext=%d" % len(exts)] + ["%s,%s" % (_hs(p), _hs(u)) for p, u in exts]
+    pcs = [(e, o) for e, o in zip(entries, offs) if e[0] == "P"]
+    out.append("pcs=%d" % len(pcs))
+    for k, (e, off) in enumerate(pcs):
+        out += ["pc", "guid=" + _hs("pc-%d" % k), "off=%d" % off, "rec=%d" % len(e[3]), "proto=%d" % len(e[2])]
+        out += ["%s/%s" % (dump_name(n), dump_type(t)) for n, t in zip(names[k], e[2])]
+        out += "og=- name=- desc=- cb=- sb=- ib=- il=- cl=- tr=- as=- ae=- sv=- sm=- ss=- hw=- sw=- fw=- temp=- hum=- pres=-".split()
+    bl = [(e, o) for e, o in zip(entries, offs) if e[0] == "B"]
+    out.append("ims=%d" % len(bl))
+    for k, (e, off) in enumerate(bl):
+        out += ["im", "guid=" + _hs("img-%d" % k), "vr=P@%d+%d,-,3,2" % (off, len(e[2]))]
+        out += "pj=- tr=- pcg=- name=- desc=- acq=- sv=- sm=- ss=-".split()
+    return " ".join(out)
+
+
+def mask_dump(d):
+    """a dump with everything removed that legitimately depends on the rendering: section offsets (the XML length
+    moves the sections behind it) and the list of prefixed namespaces"""
+    import re
+    d = re.sub(r"\boff=\d+", "off=*", d)
+    d = re.sub(r"@\d+\+", "@*+", d)
+    d = re.sub(r"\bext=\d+ (?:=[0-9a-f]*,=[0-9a-f]* )*pcs=", "ext=* pcs=", d)
+    return d
